@@ -294,6 +294,10 @@ def compile_props(cid):
                 pre += "\n" + outm[-3000:]
         except BuildError as ex:
             pre += "\n" + ex.what + "\n" + ex.log[-2000:]
+        # the props file itself only READS compiled files: downgrade to a shared lock so that
+        # several checks can print their assumptions at once, while any regenerate / make of
+        # another check (exclusive) still waits for all readers
+        fcntl.flock(lk, fcntl.LOCK_SH)
         rc, out = sh(["timeout", "900", "coqc", "-R", COQ, "V", path], cwd=COQ)
         if rc != 0:
             out = pre[-4000:] + "\n" + out
